@@ -14,6 +14,8 @@ pub mod h_unarmor;
 pub mod p_c04;
 pub mod p_c09;
 pub mod p_c12;
+pub mod p_c14;
+pub mod p_c15;
 pub mod p_c16;
 pub mod p_nav;
 
@@ -30,6 +32,10 @@ pub fn lookup<N: nd::Nd>(name: &str) -> Option<fn(&mut N)> {
         .or_else(|| p_c12::wp::LP::<N>(name))
         .or_else(|| p_c12::wt::LT::<N>(name))
         .or_else(|| p_c16::wp::LP::<N>(name))
+        .or_else(|| p_c15::ws::LS::<N>(name))
+        .or_else(|| p_c15::wl::LL::<N>(name))
+        .or_else(|| p_c14::wp::LP::<N>(name))
+        .or_else(|| p_c14::wt::LT::<N>(name))
         .or_else(|| p_nav::wp::LP::<N>(name))
         .or_else(|| p_nav::wt::LT::<N>(name))
         .or_else(|| p_nav::wn::LN::<N>(name))
